@@ -302,7 +302,7 @@ Theorem preprepare_accepted x r s blk : tc_v x = r_view r -> get_pp (tc_t x) (r_
   ctx_ok wm shut (r_height r, r_view r) = true -> validProposal me (r_height r) (Some blk) (r_hash r) = true ->
   accepted (handle_pp c wm shut x r s (Some blk)) (r_view r) (r_hash r).
 Proof.
-  intros Ev Hnone Hh Ty Hi Sok Hl Hctx Hvp. unfold handle_pp, validate_pp. rewrite Hnone, Ty, Hi, Sok, Hl, !N.eqb_refl, Hctx, Hvp. cbn [negb andb].
+  intros Ev Hnone Hh Ty Hi Sok Hl Hctx Hvp. unfold handle_pp, validate_pp. rewrite Hnone, Ty, Hi, Sok, Hl, Ev, !N.eqb_refl, Hctx, Hvp. cbn [negb andb].
   apply process_pp_joins; assumption.
 Qed.
 
